@@ -189,11 +189,17 @@ def bind(chk: Check, tier: str, seed: int):
             if m is None:
                 continue
             n_ok += 1
-            try:
-                recs.append(message_record(m, d["encodable"]))
-            except Exception as e:         # noqa: BLE001
-                recs.append({"kind": "msg", "parses": False, "hdrSame": False, "f": [], "back": "na", "err": f"{type(e).__name__}: {e}"[:120]})
-            meta.append((d["id"], tag))
+            # twice: the second record is taken from the same message object after it has been looked into and encoded
+            # once (what a forwarding application does before it serialises a message)
+            for again in ((False, True) if d["encodable"] and tag in ("base", "rand-in0") else (False,)):
+                try:
+                    if again:
+                        for f_ in m.fields:
+                            m.get_field_by_id(f_.id)
+                    recs.append(message_record(m, d["encodable"]))
+                except Exception as e:     # noqa: BLE001
+                    recs.append({"kind": "msg", "parses": False, "hdrSame": False, "f": [], "back": "na", "err": f"{type(e).__name__}: {e}"[:120]})
+                meta.append((d["id"], tag + ("/used" if again else "")))
     drecs, dmeta = dump_histories(db, rng, wd, tier)
     nmsg = len(recs)
     recs += drecs
